@@ -24,6 +24,8 @@ const (
 	ckPath   = "checkpoints"
 	spPath   = "savepoints"
 	watchdog = 5 * time.Second
+	// a store call that waits for a parked storage operation (storage touched under the store's lock)
+	callWatchdog = time.Second
 )
 
 // splitter is the job's source splitter as the store sees it. The store asks it for its state at
@@ -133,6 +135,7 @@ type env struct {
 	store   *snapshots.Store
 	spl     *splitter
 	ping    chan chan struct{}
+	onStall func()
 	stop    chan struct{}
 	exited  chan struct{}
 	base0   int // goroutines of the process when the case started
@@ -266,10 +269,13 @@ func (e *env) seedHigh(id uint64) {
 // released so that it can return, and the case ends inconclusive.
 func (e *env) watch(what string, f func()) {
 	var fired atomic.Bool
-	t := time.AfterFunc(watchdog, func() { fired.Store(true); e.gl.ReleaseAll() })
+	t := time.AfterFunc(callWatchdog, func() { fired.Store(true); e.gl.ReleaseAll() })
 	f()
 	t.Stop()
 	if fired.Load() {
+		if e.onStall != nil {
+			e.onStall() // judge what has been logged so far
+		}
 		e.c.Inconclusive("%s did not return within the watchdog while a storage operation was parked; holds released", what)
 	}
 }
